@@ -20,7 +20,7 @@ def fault_workload(args):
     mode = ["plain", "plain", "sw", "occ"][idx % 4]
     manual = (idx % 5 == 4)
     prog = C.workload(seed * 32452843 + idx, mode=mode, nops=r.randrange(6, 12), maint=(idx % 3 == 0),
-                      jcomp="none", manual=manual, persists=True)
+                      jcomp="none", manual=manual, persists=True, reopen_first=(idx % 2 == 1))
     # make sure some values bypass the 8 KiB BufWriter (error surfaces in write_all) inside batches and single puts
     big = "ab" * 9000
     lines = prog.splitlines()
@@ -96,11 +96,70 @@ def fault_workload(args):
         shutil.rmtree(wd, ignore_errors=True)
 
 
+def racing_writers(args):
+    """writer A's journal append fails slowly (the failing write() sleeps 700 ms before returning the error) while A holds the
+    journal lock; writers B and C arrive meanwhile and queue on the lock.  Sound judgement from the shim's event order: a
+    write acknowledged although its journal bytes were written after the failed call is a violation, and everything
+    acknowledged must be there after reopen."""
+    mode, akind, bkind, short, reopened = args
+    big = "ab" * 9000
+    a = {"batch": "batch - h0:p:62:%s h1:p:63:01" % big, "put": "put h0 62 %s" % big}[akind]
+    L = ["open %s jcomp=none" % mode, "ks h0 alpha", "ks h1 beta", "put h0 61 00"]
+    if reopened:
+        L += ["reopen", "ks h0 alpha", "ks h1 beta"]
+    if bkind == "tx":
+        L += ["thread b tx t1 begin", "thread b tx t1 put h0 64 04"]
+    L += ["arm", "thread a %s &" % a, "sleep 250"]
+    ia = len(L) - 1
+    b = {"batch": "batch - h0:p:64:04 h1:p:64:04", "put": "put h1 64 04", "tx": "tx t1 commit", "clear": "clear h1",
+         "persist": "persist all"}[bkind]
+    L += ["thread b %s &" % b, "thread c put h1 65 05 &", "sleep 1600", "put h0 66 06", "batch - h1:p:67:07", "exit 0"]
+    ib = ia + 2
+    prog = "\n".join(L) + "\n"
+    wd = workdir()
+    try:
+        db = C.fresh(wd)
+        kw = dict(FAULT_AT=1, FAULT_CLASS="write", FAULT_ERRNO=5, FAULT_PATH=".jnl", FAULT_DELAY_MS=700)
+        if short:
+            kw["FAULT_SHORT"] = 100
+        o, raw, rc = run_fjv(prog, dbdir=db, env_extra=C.shim_env(db, wd, **kw), timeout=60)
+        evs = [e for e in C.read_log(wd) if e["path"].endswith(".jnl") and e["call"] in ("write", "pwrite", "writev")]
+        fi = next((i for i, e in enumerate(evs) if "E5" in e["ret"]), None)
+        problems = []
+        if fi is None or not o.get(ia, "").startswith("err"):
+            return dict(prog=prog, problems=[], effective=False)     # the fault did not hit A's append (nothing to judge)
+        writes_after = [e for e in evs[fi + 1:] if not e["ret"].startswith("E")]
+        acked = {i: l for i, l in enumerate(L, 1) if i > ia and o.get(i, "").startswith("ok") and is_write_line(l.replace("thread b ", "").replace("thread c ", "").split())}
+        if writes_after and acked:
+            problems.append("A's journal append failed (line %d: %s) and %d journal write(s) followed it; acknowledged afterwards: %s"
+                            % (ia, o.get(ia), len(writes_after), "; ".join("line %d %s" % (i, l[:40]) for i, l in acked.items())))
+        okres, dump, o2 = C.reopen_dump(db, mode)
+        for i, l in acked.items():
+            for tok, need in (("64", "64=04"), ("65", "65=05"), ("66", "66=06"), ("67", "67=07")):
+                if (" " + tok + " " in l or ":" + tok + ":" in l) and "clear" not in l and need not in (dump or ""):
+                    problems.append("line %d (%s) was acknowledged but is missing after reopen: %s %s" % (i, l[:40], okres, dump))
+        if okres != "ok":
+            problems.append("reopen after the failure: %s" % okres)
+        return dict(prog=prog, problems=problems, effective=True)
+    finally:
+        shutil.rmtree(wd, ignore_errors=True)
+
+
+RACES = [(m, a, b, s_, ro) for m in ("plain", "sw", "occ") for a in ("batch", "put") for b in ("batch", "put", "tx", "clear", "persist")
+         for s_ in (False, True) for ro in (False, True) if not (m == "plain" and b == "tx")]
+
+
 def run(rep, tier, seed, build):
     from common import proof_audit
     obl, dis, pproblems = proof_audit("props/C13.v", THEOREMS, build["coq"])
     n = 20 if tier == "quick" else 300
     results = pmap(fault_workload, [(i, seed, tier) for i in range(n)])
+    races = RACES if tier != "quick" else [x for i, x in enumerate(RACES) if (i + seed) % 5 == 0]
+    rr = pmap(racing_writers, races, workers=8)
+    for x in [x for x in rr if x["problems"]][:2]:
+        rep.violation("# C13: writers queued on the journal lock while another writer's append fails: %s\n"
+                      "# shim: FJSHIM_FAULT_AT=1 FJSHIM_FAULT_CLASS=write FJSHIM_FAULT_PATH=.jnl FJSHIM_FAULT_DELAY_MS=700\n%s"
+                      % (x["problems"][0], "\n".join(l[:200] for l in x["prog"].splitlines())))
     bad = [r_ for r_ in results if r_["problems"]]
     for r_ in bad[:3]:
         p = r_["problems"][0]
@@ -121,12 +180,13 @@ def run(rep, tier, seed, build):
                              "checked: the operation reports an error, no later write is acknowledged, and after exit (with and without "
                              "clean drop) reopen yields the acknowledged prefix or that plus the complete failed operation",
                         samples=[r_["sample"] for r_ in results if r_.get("sample")][:3], workloads=n, fault_points=runs,
+                        racing_writer_schedules=len(rr), racing_writer_schedules_effective=sum(1 for x in rr if x["effective"]),
                         fault_kind_histogram=dict(kinds), error_surface_histogram=dict(surf), disagreements_checked=len(bad),
                         partial_theorems=THEOREMS, partial_theorems_discharged=dis, partial_theorem_problems=pproblems)
     if pproblems and not rep.violations:
         rep.violation("# C13: partial theorem no longer checks\n" + "\n".join(pproblems) + "\n", suffix="no-failing-input-found")
-    rep.assumptions = ["faults are injected on journal files only (the property is about journal I/O)", "single-threaded workloads; "
-                       "multi-writer fault runs are part of the thorough tier of C14"]
+    rep.assumptions = ["faults are injected on journal files only (the property is about journal I/O)", "multi-writer schedules: one slow failing append with two "
+                       "writers queued behind it (judged by the order of journal writes in the shim log); other thread schedules are not enumerated"]
 
 
 def replay(rep, path, build):
